@@ -21,8 +21,10 @@ let r : run ref = ref (idle [])
    transition of the object side goes through the extracted bstep with the proved final_ops *)
 let bfile : cmd list ref = ref []
 let bbuf : cmd list ref = ref []
-let bs () = { b_run = !r; b_file = !bfile; b_buf = !bbuf }
-let bdo e = let b = bstep !mk !mi final_ops (bs ()) e in r := b.b_run; bfile := b.b_file; bbuf := b.b_buf
+(* s.shrinkrst: a follower dropped its dataset while the rewrite was running *)
+let breset : bool ref = ref false
+let bs () = { b_run = !r; b_file = !bfile; b_buf = !bbuf; b_reset = !breset }
+let bdo e = let b = bstep !mk !mi final_ops true (bs ()) e in r := b.b_run; bfile := b.b_file; bbuf := b.b_buf; breset := b.b_reset
 let hr : hrun ref = ref (hrun_init [])
 (* the shrinklog in arrival order (object and hook commands interleaved; FLUSHDB once) *)
 let merged : Stdlib.String.t list ref = ref []
@@ -112,7 +114,7 @@ let cp_name = function
 
 let present = function Some _ -> "1" | None -> "0"
 
-let reset () = r := idle []; hr := hrun_init []; merged := []; bfile := []; bbuf := []
+let reset () = r := idle []; hr := hrun_init []; merged := []; bfile := []; bbuf := []; breset := false
 
 let outcome_str = function
   | Updated -> "updated" | NotUpdated -> "notupdated" | ErrKeyNotFound -> "err:keynotfound" | ErrIdNotFound -> "err:idnotfound"
@@ -168,6 +170,9 @@ let handle (toks : Stdlib.String.t list) : Stdlib.String.t =
        | Some c -> do_w ~flush:false c
        | None -> "?bad command")
   | ["flush"] -> bdo BFlush; "ok"
+  (* a follower starts over: log recreated, dataset and hooks cleared, nothing reaches the shrinklog *)
+  | ["reset"] -> bdo BReset; hr := { !hr with hr_live = [] }; merged := []; "ok"
+  | ["breset"] -> b01 !breset
   (* the final section of the running rewrite and its epilogue *)
   | ["final"] ->
       if !r.r_shrinking && sh_done !r.r_sh && gate () = "final - -" then (bdo BFinal; merged := []; "ok") else "?not at the final section"
@@ -182,12 +187,14 @@ let handle (toks : Stdlib.String.t list) : Stdlib.String.t =
            let (_, buf) = crash_atb fi c in
            (match buf with [] -> "empty" | _ -> "pending")
        | _ -> "?bad crash point")
-  (* geoenc point <lat> <lon> | pointz <lat> <lon> <z> | rect <minlat> <minlon> <maxlat> <maxlon>, numbers as
-     nan / +inf / -inf / hex of the text of a finite number: the payload arguments of the snapshot record, and
-     whether the loader reads the same object back *)
-  | "geoenc" :: kind :: nums ->
+  (* geoenc <requirevalid 0|1> point <lat> <lon> | pointz <lat> <lon> <z> | rect <minlat> <minlon> <maxlat> <maxlon>,
+     numbers as nan / +inf / -inf / hex of the text of a finite number (prefixed with ! when it is outside the valid
+     range of its axis): the payload arguments of the snapshot record, and whether the loader reads the same object back *)
+  | "geoenc" :: rv :: kind :: nums ->
       let num t = match Stdlib.String.lowercase_ascii t with
-        | "nan" -> NaN | "+inf" -> PInf | "-inf" -> NInf | _ -> Fin (hx t) in
+        | "nan" -> NaN | "+inf" -> PInf | "-inf" -> NInf
+        | _ -> if Stdlib.String.length t > 0 && t.[0] = '!' then Fin (hx (Stdlib.String.sub t 1 (Stdlib.String.length t - 1)), false)
+               else Fin (hx t, true) in
       let ns = Stdlib.List.map num nums in
       let g = (match kind, ns with
         | "point", [y; x] -> Some (GPoint (y, x))
@@ -197,13 +204,13 @@ let handle (toks : Stdlib.String.t list) : Stdlib.String.t =
       (match g with
        | None -> "?bad geometry"
        | Some g ->
-           let show = function NaN -> "NaN" | PInf -> "+Inf" | NInf -> "-Inf" | Fin t -> xh t in
+           let show = function NaN -> "NaN" | PInf -> "+Inf" | NInf -> "-Inf" | Fin (t, _) -> xh t in
            let p = enc g in
            let form = (match p with
              | PObject (_, _) -> "object"
              | PPoint a -> Stdlib.String.concat " " ("point" :: Stdlib.List.map show a)
              | PBounds a -> Stdlib.String.concat " " ("bounds" :: Stdlib.List.map show a)) in
-           let back = (match dec p with Some g' -> if coords g' = coords g then "same" else "changed" | None -> "refused") in
+           let back = (match dec (rv = "1") p with Some g' -> if coords g' = coords g then "same" else "changed" | None -> "refused") in
            form ^ " | " ^ back)
   (* startupat <cpname> <legacy 0|1>: what the start-up serves after a crash there when a legacy file
      with other data is (not) in the directory: acknowledged | legacy | empty | none *)
